@@ -65,7 +65,7 @@ Proof. reflexivity. Qed.
 (* while: test and body are re-evaluated per iteration *)
 Theorem C01_while : forall c body last,
   sstep F rec load (TWhile c body last) =
-  bind (ev c) (fun v => if null v then ret last
+  bind (ev c) (fun v => if null v then ret Nil
                         else bind (progn rec (items body) Nil) (fun r => rec (TWhile c body r))).
 Proof. reflexivity. Qed.
 (* a call: the head is a variable (Lisp-1), then the function is applied *)
